@@ -1,0 +1,101 @@
+//go:build verif
+
+// Lock-discipline sweep over the message handlers and client entry points of package rpc (C08/C09:
+// "never deadlocks", "no internal lock stays held").  PARTIAL contracts: for each function only the
+// lock typestate obligations are generated - every Lock is of a mutex not already held by this
+// call, every Unlock is of a held mutex, and on every return every mutex is as on entry.
+package rpc
+
+//@ option immutable:answer.c immutable:embargo.c
+
+//@ func Conn.handleBootstrap -> err
+//@   props C08 C09
+//@   locktypestate
+//@   partial lock post pre:Conn.tryLockSender pre:Conn.lockSender pre:Conn.unlockSender
+//@   requires c != nil && nolocks() && !sending(c)
+//@   ensures sender: !sending(c)
+
+//@ func Conn.handleReturn -> err
+//@   props C08 C09
+//@   locktypestate
+//@   partial lock post pre:Conn.tryLockSender pre:Conn.lockSender pre:Conn.unlockSender
+//@   requires c != nil && nolocks() && !sending(c)
+//@   loop 0 "range pr.disembargoes"
+//@     invariant nolocks()
+//@   ensures sender: !sending(c)
+
+//@ func Conn.handleFinish -> err
+//@   props C08 C09
+//@   locktypestate
+//@   partial lock post pre:Conn.tryLockSender pre:Conn.lockSender pre:Conn.unlockSender
+//@   requires c != nil && nolocks() && !sending(c)
+//@   ensures sender: !sending(c)
+
+//@ func Conn.handleRelease -> err
+//@   props C08 C09
+//@   locktypestate
+//@   partial lock post pre:Conn.tryLockSender pre:Conn.lockSender pre:Conn.unlockSender
+//@   requires c != nil && nolocks() && !sending(c)
+//@   ensures sender: !sending(c)
+
+//@ func Conn.handleDisembargo -> err
+//@   props C08 C09
+//@   locktypestate
+//@   partial lock post pre:Conn.tryLockSender pre:Conn.lockSender pre:Conn.unlockSender
+//@   requires c != nil && nolocks() && !sending(c)
+//@   ensures sender: !sending(c)
+
+//@ func Conn.handleUnknownMessage -> err
+//@   props C08 C09
+//@   locktypestate
+//@   partial lock post pre:Conn.tryLockSender pre:Conn.lockSender pre:Conn.unlockSender
+//@   requires c != nil && nolocks() && !sending(c)
+//@   ensures sender: !sending(c)
+
+//@ func Conn.Bootstrap -> bc
+//@   props C09
+//@   locktypestate
+//@   partial lock post pre:Conn.tryLockSender pre:Conn.lockSender pre:Conn.unlockSender
+//@   requires c != nil && nolocks() && !sending(c)
+//@   ensures sender: !sending(c)
+
+//@ func question.handleCancel
+//@   props C09
+//@   locktypestate
+//@   partial lock post pre:Conn.tryLockSender pre:Conn.lockSender pre:Conn.unlockSender
+//@   requires q != nil && q.c != nil && nolocks() && !sending(q.c)
+//@   ensures sender: !sending(q.c)
+
+//@ func question.PipelineRecv -> pc
+//@   props C09
+//@   locktypestate
+//@   partial lock post pre:Conn.tryLockSender pre:Conn.lockSender pre:Conn.unlockSender
+//@   requires q != nil && q.c != nil && nolocks() && !sending(q.c)
+//@   ensures sender: !sending(q.c)
+
+//@ func importClient.Recv -> pc
+//@   props C09
+//@   locktypestate
+//@   partial lock post pre:Conn.tryLockSender pre:Conn.lockSender pre:Conn.unlockSender
+//@   requires ic != nil && ic.c != nil && nolocks() && !sending(ic.c)
+//@   ensures sender: !sending(ic.c)
+
+//@ func answer.Return
+//@   props C08 C09
+//@   locktypestate
+//@   partial lock post pre:Conn.tryLockSender pre:Conn.lockSender pre:Conn.unlockSender
+//@   requires ans != nil && ans.c != nil && nolocks() && !sending(ans.c)
+//@   ensures sender: !sending(ans.c)
+
+//@ func answer.AllocResults -> s, err
+//@   props C09
+//@   locktypestate
+//@   partial lock post pre:Conn.tryLockSender pre:Conn.lockSender pre:Conn.unlockSender
+//@   requires ans != nil && ans.c != nil && nolocks() && !sending(ans.c)
+//@   ensures sender: !sending(ans.c)
+
+//@ func embargo.lift
+//@   props C09
+//@   locktypestate
+//@   partial lock post pre:Conn.tryLockSender pre:Conn.lockSender pre:Conn.unlockSender
+//@   requires e != nil && nolocks()
